@@ -564,6 +564,23 @@ def rewrite_iter_adapters(code, stats):
       R9e  E.iter().filter(|x| C).count()               ->  counting index loop
     Assumed std contract: the adapters visit the elements once, in order."""
     flat = lambda e: re.sub(r"\s+", "", e)
+    # R9i: `E.drain(..)` (consumed completely by a `for` loop or an adapter chain) = all elements of E, in
+    # order, E left empty — the prelude's `drain_all_()`, followed by `.into_iter()`
+    for n_ in range(4):
+        m = re.search(r"\.\s*drain\(\s*\.\.\s*\)", code)
+        if not m:
+            break
+        rs = _receiver_start(code, m.start())
+        recv = code[rs:m.start()]
+        masked = mask_trivia(code)
+        k_ = max(masked.rfind(";", 0, rs), masked.rfind("{", 0, rs), masked.rfind("}", 0, rs))
+        # a `for x in RECV.drain(..)` header: hoist in front of the `for`
+        fm = re.search(r"\bfor\s+\w+\s+in\s*$", masked[k_ + 1:rs])
+        ins = k_ + 1
+        name_ = "drained%d_" % n_
+        code = (code[:ins] + "\n        let mut %s = %s.drain_all_();\n" % (name_, flat(recv))
+                + code[ins:rs] + name_ + ".into_iter()" + code[m.end():])
+        stats["R9"] = stats.get("R9", 0) + 1
     # R9f/R9g: explicit `for` loops over the same collections are brought to the same normal form,
     # so that a unit's loop contracts do not depend on which of the two spellings the code uses
     for _ in range(10):
